@@ -1012,14 +1012,22 @@ def sym_exec(idx, fi, stmts=None, env=None, store=None, loops='error', max_paths
                 env = dict(env)
                 env[s.name] = s.term
                 continue
-            if isinstance(s, ast.For) and isinstance(s.target, ast.Name) and not s.orelse:
-                # `for x in (a, b, c)` over a literal (or a local bound to one) is unrolled
+            if isinstance(s, ast.For) and not s.orelse and (isinstance(s.target, ast.Name) or (
+                    isinstance(s.target, (ast.Tuple, ast.List)) and all(isinstance(t_, ast.Name) for t_ in s.target.elts))):
+                # `for x in (a, b, c)` / `for c, m in ((c1, m1), ...)` over a literal (or a local bound to one) is unrolled
                 it = tb.build(s.iter, env, store)
-                if it[0] in ('tuple', 'list') and len(it[1]) <= 16 and not any(
-                        isinstance(n, (ast.Break, ast.Continue)) for b_ in s.body for n in ast.walk(b_)):
+                names = [s.target.id] if isinstance(s.target, ast.Name) else [t_.id for t_ in s.target.elts]
+                fits = it[0] in ('tuple', 'list') and len(it[1]) <= 16 and not any(
+                    isinstance(n, (ast.Break, ast.Continue)) for b_ in s.body for n in ast.walk(b_))
+                if fits and not isinstance(s.target, ast.Name):
+                    fits = all(e_[0] in ('tuple', 'list') and len(e_[1]) == len(names) for e_ in it[1])
+                if fits:
                     unrolled = []
                     for elt in it[1]:
-                        unrolled.append(_Bind(s.target.id, elt))
+                        if isinstance(s.target, ast.Name):
+                            unrolled.append(_Bind(names[0], elt))
+                        else:
+                            unrolled.extend(_Bind(n_, v_) for n_, v_ in zip(names, elt[1]))
                         unrolled.extend(s.body)
                     run(unrolled + list(stmts[i + 1:]), env, store, guards, effects, closures)
                     return
@@ -2011,10 +2019,16 @@ TRANSPOSE_NAMES = {'transpose'}
 CONJ_NAMES = {'conj', 'conjugate'}
 
 
+FIELD_CASTS = (('ifexp', ('cfg', 'complex'), ('ext', 'complex'), ('ext', 'float')),
+               ('ifexp', ('not', ('cfg', 'complex')), ('ext', 'float'), ('ext', 'complex')))
+
+
 class AlgEval(object):
-    def __init__(self, base_term, renv=None):
+    def __init__(self, base_term, renv=None, field_flag=True):
         self.base = base_term
         self.renv = renv or RatEnv()
+        self.field_flag = field_flag      # is config['complex'] the field of the arrays handled here?
+        self.casts = []
 
     def ev(self, t):
         BUDGET.tick()
@@ -2026,6 +2040,11 @@ class AlgEval(object):
             return self._unary(t[2], a, t)
         if k == 'attr' and t[2] == 'T':
             return self._unary('transpose', self.ev(t[1]), t)
+        if k == 'meth' and t[2] == 'astype' and len(t[3]) == 1 and not t[4]:
+            if t[3][0] in FIELD_CASTS and self.field_flag:
+                self.casts.append(t)
+                return self.ev(t[1])          # the array's field already is complex iff config['complex'] (C12-D3.DRAW): no-op
+            raise Unsupported('cast `%s` is outside the matrix-word algebra' % show(t[3][0]))
         if k == 'call' and t[1].startswith('numpy.') and len(t[2]) == 1 and not t[3]:
             fn = t[1].split('.')[-1]
             if fn in TRANSPOSE_NAMES | CONJ_NAMES | {'trace'}:
@@ -2236,6 +2255,20 @@ def specialise(idx, fi, t, asg, depth=0):
             return sp(builder.build(node.body, env2, store))
         if t[2] == '__call__' and recv[0] == 'ext':
             return ('call', recv[1], args, kwargs)
+        if recv == ('self',) and not kwargs:
+            # a helper method the normaliser could not inline (listed in idx.unreviewed): expand a single straight-line return
+            owner = fi
+            while owner.outer is not None:
+                owner = owner.outer
+            callee = idx.lookup(owner.cls, t[2]) if owner.cls is not None else None
+            if callee is not None and callee.qualname in set(getattr(idx, 'unreviewed', ()) or ()) \
+                    and len(callee.params) == len(args) + 1 and not (callee.node.args.vararg or callee.node.args.kwarg):
+                try:
+                    cps = sym_exec(idx, callee, env=dict(zip(callee.params[1:], args)))
+                except Unsupported:
+                    cps = []
+                if len(cps) == 1 and cps[0].kind == 'ret' and not cps[0].store:
+                    return sp(cps[0].value)
         return ('meth', recv, t[2], args, kwargs)
     if k == 'index':
         base, i = sp(t[1]), sp(t[2])
